@@ -118,6 +118,7 @@ func Load(repo, prop, tier string) (*Ctx, error) {
 	c.Stats["packages_loaded"] = len(c.Pkgs)
 	currentGlobalInits = c.GlobalInits()
 	c.registerGlobalInits()
+	SortedByCallers = c.sortedByCallers
 	constTableCache = map[*ssa.Global]*constTable{}
 	return c, nil
 }
@@ -919,6 +920,105 @@ func (c *Ctx) RootNames(f *Func) []string {
 			seen[at.root] = true
 			out = append(out, at.root)
 		}
+	}
+	return out
+}
+
+// sortedByCallers: see SortedByCallers.
+func (c *Ctx) sortedByCallers(f *Func, o types.Object) bool {
+	info := f.Pkg.TypesInfo
+	// which result of f is o?
+	res := -1
+	allReturn := true
+	ast.Inspect(f.Decl.Body, func(n ast.Node) bool {
+		if _, isLit := n.(*ast.FuncLit); isLit {
+			return false
+		}
+		rs, ok := n.(*ast.ReturnStmt)
+		if !ok {
+			return true
+		}
+		k := -1
+		for i, r := range rs.Results {
+			if ObjOf(info, r) == o {
+				k = i
+			}
+		}
+		if k < 0 || (res >= 0 && k != res) {
+			// a return that does not hand out the slice (nil on an error path is fine)
+			for _, r := range rs.Results {
+				if !IsNilIdent(info, r) && k < 0 {
+					if tv, ok := info.Types[r]; !ok || !types.Identical(tv.Type, types.Universe.Lookup("error").Type()) {
+						allReturn = false
+					}
+				}
+			}
+			return true
+		}
+		res = k
+		return true
+	})
+	if res < 0 || !allReturn {
+		return false
+	}
+	callers := c.callersOf(f.Obj)
+	if len(callers) == 0 {
+		return false
+	}
+	for _, cs := range callers {
+		ginfo := cs.g.Pkg.TypesInfo
+		parent := ParentMap(cs.g.Decl.Body)
+		as, ok := parent[cs.call].(*ast.AssignStmt)
+		if !ok || res >= len(as.Lhs) {
+			return false
+		}
+		dst := ObjOf(ginfo, as.Lhs[res])
+		if dst == nil {
+			return false
+		}
+		sorted := false
+		ast.Inspect(cs.g.Decl.Body, func(n ast.Node) bool {
+			call, ok := n.(*ast.CallExpr)
+			if !ok || call.Pos() < as.End() || len(call.Args) == 0 || !sortFuncs[CalleeName(ginfo, call)] {
+				return true
+			}
+			if root := RootIdent(call.Args[0]); root != nil && ObjOf(ginfo, root) == dst {
+				// the sort runs whenever control goes on after the assignment: its enclosing blocks enclose the
+				// assignment too
+				okPath := true
+				for n := parent[call]; n != nil; n = parent[n] {
+					if n.Pos() <= as.Pos() && as.End() <= n.End() {
+						break
+					}
+					switch n.(type) {
+					case *ast.IfStmt, *ast.ForStmt, *ast.RangeStmt, *ast.SwitchStmt, *ast.TypeSwitchStmt, *ast.SelectStmt, *ast.FuncLit, *ast.CaseClause:
+						okPath = false
+					}
+				}
+				if okPath {
+					sorted = true
+				}
+			}
+			return true
+		})
+		if !sorted {
+			return false
+		}
+	}
+	return true
+}
+
+// CallSite is one call of a module function, with the function that makes it.
+type CallSite struct {
+	In   *Func
+	Call *ast.CallExpr
+}
+
+// CallersOf lists the call sites of module function f.
+func (c *Ctx) CallersOf(f *Func) []CallSite {
+	var out []CallSite
+	for _, cs := range c.callersOf(f.Obj) {
+		out = append(out, CallSite{cs.g, cs.call})
 	}
 	return out
 }
